@@ -800,7 +800,15 @@ func c12CloseRaces(u *vfUnit) {
 					}
 					wasClosed := closed.Load()
 					var err error
-					switch (g + it) % 5 {
+					op := (g + it) % 8
+					switch op {
+					case 5:
+						// (every method that sends the handle, not only the common ones)
+						err = f.SetExtendedData("", []StatExtended{{ExtType: "vf@example.com", ExtData: "1"}})
+					case 6:
+						err = f.Chown(0, 0)
+					case 7:
+						_, err = f.Seek(0, io.SeekEnd)
 					case 0:
 						_, err = f.ReadAt(make([]byte, 1+rr.Intn(3*P)), int64(rr.Intn(4000)))
 					case 1:
@@ -824,9 +832,9 @@ func c12CloseRaces(u *vfUnit) {
 							return
 						}
 					} else if wasClosed && err == nil {
-						badErr.Store(fmt.Sprintf("a call started after Close had returned succeeded (op %d)", (g+it)%5))
+						badErr.Store(fmt.Sprintf("a call started after Close had returned succeeded (op %d)", op))
 					} else if err != nil && err != io.EOF {
-						badErr.Store(fmt.Sprintf("unexpected error %v (op %d)", err, (g+it)%5))
+						badErr.Store(fmt.Sprintf("unexpected error %v (op %d)", err, op))
 					}
 				}
 			}(g)
